@@ -40,6 +40,20 @@ func gen(seed int64, tier string, idx int) *pipe.Scenario {
 	if g.R.Intn(5) == 0 {
 		sc.Faults = append(sc.Faults, pipe.Fault{Kind: "commit", Every: int64(2 + g.R.Intn(3)), Action: "delay", DelayUs: 300 + g.R.Intn(2000)})
 	}
+	if idx%16 == 5 {
+		// the DLQ confirms only part of one dead-letter write
+		sc.Steps, sc.Faults = nil, nil
+		sc.Topo.Sources = sc.Topo.Sources[:1]
+		sc.Records = sc.Records[:1]
+		if sc.Records[0] < 20 {
+			sc.Records[0] = 20
+		}
+		sc.Topo.Sources[0].Procs = nil
+		sc.Topo.PipeProcs = nil
+		sc.Topo.Dests[0].Procs = nil
+		sc.Cond = nil
+		g.PartialDLQFailure(sc)
+	}
 	return sc
 }
 
@@ -48,6 +62,21 @@ func judge(out *pipe.Outcome, ix *pipe.Index) pipe.Verdict {
 	vs, j := pipe.OracleC01(ix)
 	v.Violations = vs
 	v.AddJudged("source_acks_", j)
+	// the stored position is the durable form of the ack (it is what the source is
+	// opened with next time): it must not pass a record that was neither confirmed
+	// by every destination nor dead-lettered nor filtered
+	vs02, j02 := pipe.OracleC02(ix)
+	for _, x := range vs02 {
+		if x.Class == "commit-past-unhandled" {
+			x.Property = "C01"
+			x.Identity = "C01/stored-position-past-unconfirmed-record/" + out.Sc.Engine
+			v.Violations = append(v.Violations, x)
+		}
+	}
+	if v.Stats == nil {
+		v.Stats = map[string]int64{}
+	}
+	v.Stats["stored_position_obligations"] += j02.ByHow["commit-covers-handled"]
 	// non-trivial: at least one ack judged that needed >=2 confirming parties, a DLQ or a filter
 	multi := len(out.Sc.Topo.Dests) >= 2 && j.ByHow["delivered"] > 0
 	v.Nontrivial = j.Obligations > 0 && (multi || j.ByHow["dlq"] > 0 || j.ByHow["filtered"] > 0)
